@@ -687,6 +687,149 @@ example : canonVal (.arr .byteArray .byte 4) (.slice (some 0) none (some 2)) (.s
     = some [.bytes [65], .bytes [66]] := by decide
 example : canonVal (.str 6) .whole (.sc (.str [104, 105, 0, 106])) = some [.str [104, 105]] := by decide
 
+/-! ## all or nothing, at full generality
+
+What `refused_atomic` (above) already covers: **every** field descriptor (`FTy`: 8 int widths, 2 float widths, char, byte,
+string of any length, Int/Float/Byte/Struct arrays of any length and element type, struct of any size), **every** key
+(index, any slice `[a:b:c]`, whole field, non-integer key), **every** content and **every** right-hand side (scalars,
+lists / tuples / ctypes arrays / generators of any length with the refused element at any position after any prefix of
+valid ones, `bytes`, `str`, ctypes and struct instances, bound / unbound array objects of any family).  It speaks about the
+field's own bytes.  Added here:
+
+* the statement for the **whole object**: `refused_leaves_message_unchanged` (the field is a sub-range of the top-level
+  buffer - directly, through nested structs, inside struct-array elements, or through a view bound earlier; the view case is
+  also part of `exec`, § the validation switch);
+* the converse frame: an accepted assignment changes nothing outside the field (`accepted_touches_only_the_field`) and,
+  inside an array, nothing outside the selected elements (`unselected_elements_untouched`);
+* the "k-th element after any valid prefix" form spelled out for the four array families
+  (`…_kth_bad_all_or_nothing`), byte arrays included (`byte_array_bad_element_refused` was missing). -/
+
+open Pyrtma.Validators
+
+theorem splice_same (msg : Bytes) (off sz : Nat) :
+    msg.take off ++ (msg.drop off).take sz ++ msg.drop (off + sz) = msg := by
+  rw [List.append_assoc, ← List.drop_drop, List.take_append_drop, List.take_append_drop]
+
+theorem splice_frame (A new C : Bytes) (off sz : Nat) (hA : A.length = off) (hn : new.length = sz) :
+    (A ++ new ++ C).take off = A ∧ (A ++ new ++ C).drop (off + sz) = C ∧
+    ((A ++ new ++ C).drop off).take sz = new := by
+  subst hA hn
+  refine ⟨?_, ?_, ?_⟩
+  · rw [List.append_assoc, List.take_left']; rfl
+  · rw [← List.length_append, List.drop_left']; rfl
+  · rw [List.append_assoc, List.drop_left' rfl, List.take_left' rfl]
+
+/-- **All or nothing, seen from the whole object.**  The field lives at bytes `off … off + ty.size` of the top-level
+message (directly, inside a nested struct, inside an element of a struct array, or reached through a view bound
+earlier: all of these are sub-ranges of the one buffer).  With validation on, an assignment that raises leaves
+**every byte of the message** as it was. -/
+theorem refused_leaves_message_unchanged (msg : Bytes) (off : Nat) (ty : FTy) (key : Key) (v : PyVal) :
+    (setAt true msg off ty key v).2 ≠ none → (setAt true msg off ty key v).1 = msg := by
+  intro h
+  unfold setAt at h ⊢
+  simp only at h ⊢
+  rw [refused_atomic ty _ key v h]
+  exact splice_same msg off ty.size
+
+/-- … and an accepted one changes nothing but the field: same length, same bytes before and after it -/
+theorem accepted_touches_only_the_field (msg : Bytes) (off : Nat) (ty : FTy) (hF : FloatOK ty.vk) (key : Key)
+    (v : PyVal) (msg' : Bytes) (hfit : off + ty.size ≤ msg.length) (hty : tyWF ty = true)
+    (hw : valWF ty.vk v = true) (h : setAt true msg off ty key v = (msg', none)) :
+    msg'.length = msg.length ∧ msg'.take off = msg.take off ∧
+    msg'.drop (off + ty.size) = msg.drop (off + ty.size) ∧
+    (msg'.drop off).take ty.size = (setField true ty ((msg.drop off).take ty.size) key v).1 := by
+  unfold setAt at h
+  simp only [Prod.mk.injEq] at h
+  obtain ⟨h1, h2⟩ := h
+  have hold : ((msg.drop off).take ty.size).length = ty.size := by simp; omega
+  have hacc : setField true ty ((msg.drop off).take ty.size) key v =
+      ((setField true ty ((msg.drop off).take ty.size) key v).1, none) := by
+    rw [← h2]
+  have hlen := (accepted_sound ty hF _ key v _ hty hold hw hacc).2.2
+  generalize (setField true ty ((msg.drop off).take ty.size) key v).1 = new at *
+  subst h1
+  have hA : (msg.take off).length = off := by simp; omega
+  obtain ⟨f1, f2, f3⟩ := splice_frame (msg.take off) new (msg.drop (off + ty.size)) off ty.size hA hlen
+  exact ⟨by simp; omega, f1, f2, f3⟩
+
+
+/-- inside an array an accepted assignment leaves every element it does not select untouched -/
+theorem unselected_elements_untouched (cls : ArrCls) (vk : VK) (hF : FloatOK vk) (n : Nat) (old : Bytes) (key : Key)
+    (v : PyVal) (post : Bytes) (hold : old.length = vk.esize * n) (hw : valWF vk v = true)
+    (h : setField true (.arr cls vk n) old key v = (post, none)) :
+    ∀ idxs, selIndices n key = .ok idxs → ∀ j, j < n → j ∉ idxs →
+      elemBytes post j vk.esize = elemBytes old j vk.esize :=
+  arr_frame cls vk hF n old key v post hold hw h
+
+/-- a refusal of the field assignment is a refusal that leaves the whole message as it was -/
+theorem refused_whole (msg : Bytes) (off : Nat) (ty : FTy) (key : Key) (v : PyVal)
+    (h : ∀ old, (setField true ty old key v).2 ≠ none) : ∃ e, setAt true msg off ty key v = (msg, some e) := by
+  have h2 : (setAt true msg off ty key v).2 ≠ none := h _
+  have h1 := refused_leaves_message_unchanged msg off ty key v h2
+  cases he : (setAt true msg off ty key v).2 with
+  | none => exact absurd he h2
+  | some e => exact ⟨e, Prod.ext h1 he⟩
+
+/-- **byte arrays**: an element that is no int in 0..255 is refused at any position -/
+theorem byte_array_bad_element_refused (n : Nat) (old : Bytes) (a b c : Option Int) (kind : SeqK)
+    (pre post : List Scalar) (bad : Scalar) (hbad : intDom 0 255 bad = false) (whole : Bool) :
+    (setField true (.arr .byteArray .byte n) old (if whole then .whole else .slice a b c)
+      (.seq kind (pre ++ bad :: post))).2 ≠ none := by
+  have key : ∀ key : Key, (setItem true .byte n old key (.seq kind (pre ++ bad :: post))).2 ≠ none := by
+    intro key
+    unfold setItem
+    have hm : itemCheck .byte key (.seq kind (pre ++ bad :: post)) ≠ .ok () := by
+      intro hm
+      unfold itemCheck at hm
+      simp only [iterable, if_true] at hm
+      unfold validateMany at hm
+      simp only [items] at hm
+      have := intMany_range hm bad (by simp)
+      rw [hbad] at this; cases this
+    simp only [if_true]
+    split
+    · simp
+    · rename_i hchk; exact absurd hchk hm
+  cases whole <;> simp only [setField, Bool.false_eq_true, if_false, if_true] <;> exact key _
+
+/-- **the k-th element, after any prefix of valid ones**: one bad element at position `pre.length` of a sequence
+assigned to an int array (slice of any shape or whole field; list, tuple, ctypes array or generator) - the assignment
+raises and **every byte of the message** is as before.  (`pre`, `post` are arbitrary: valid, invalid, NaN, anything.) -/
+theorem int_array_kth_bad_all_or_nothing (msg : Bytes) (off : Nat) (k : IK) (n : Nat) (a b c : Option Int) (kind : SeqK)
+    (pre post : List Scalar) (bad : Scalar) (hbad : intDom k.lo k.hi bad = false) (whole : Bool) :
+    ∃ e, setAt true msg off (.arr .intArray (.int k) n) (if whole then .whole else .slice a b c)
+      (.seq kind (pre ++ bad :: post)) = (msg, some e) :=
+  refused_whole msg off _ _ _ (fun old => int_array_bad_element_refused k n old a b c kind pre post bad hbad whole)
+
+theorem float_array_kth_bad_all_or_nothing (msg : Bytes) (off : Nat) (k : FK) (n : Nat) (a b c : Option Int)
+    (kind : SeqK) (pre post : List Scalar) (bad : Scalar)
+    (hbad : ∀ d, toDouble bad = .ok d → infAfter k d = true) (whole : Bool) :
+    ∃ e, setAt true msg off (.arr .floatArray (.flt k) n) (if whole then .whole else .slice a b c)
+      (.seq kind (pre ++ bad :: post)) = (msg, some e) :=
+  refused_whole msg off _ _ _ (fun old => float_array_bad_element_refused k n old a b c kind pre post bad hbad whole)
+
+theorem byte_array_kth_bad_all_or_nothing (msg : Bytes) (off : Nat) (n : Nat) (a b c : Option Int) (kind : SeqK)
+    (pre post : List Scalar) (bad : Scalar) (hbad : intDom 0 255 bad = false) (whole : Bool) :
+    ∃ e, setAt true msg off (.arr .byteArray .byte n) (if whole then .whole else .slice a b c)
+      (.seq kind (pre ++ bad :: post)) = (msg, some e) :=
+  refused_whole msg off _ _ _ (fun old => byte_array_bad_element_refused n old a b c kind pre post bad hbad whole)
+
+theorem struct_array_kth_bad_all_or_nothing (msg : Bytes) (off : Nat) (tid sz n : Nat) (a b c : Option Int)
+    (kind : SeqK) (pre post : List Scalar) (bad : Scalar) (hbad : ∀ raw, bad ≠ .strct tid raw) (whole : Bool) :
+    ∃ e, setAt true msg off (.arr .structArray (.strct tid sz) n) (if whole then .whole else .slice a b c)
+      (.seq kind (pre ++ bad :: post)) = (msg, some e) :=
+  refused_whole msg off _ _ _
+    (fun old => struct_array_bad_element_refused tid sz n old a b c kind pre post bad hbad whole)
+
+/-- the third element of four is out of range: nothing of a 7-byte message changes, although the first two are valid -/
+example : setAt true [1, 2, 3, 4, 5, 6, 7] 2 (.arr .intArray (.int .i8) 4) .whole
+    (.seq .list [.int 1, .int 2, .int 300, .int 4]) = ([1, 2, 3, 4, 5, 6, 7], some .valueError) := by decide
+/-- the same store with validation off writes the prefix (`c_int8(300)` wraps, so use a wrong type to stop it) -/
+example : setAt false [1, 2, 3, 4, 5, 6, 7] 2 (.arr .intArray (.int .i8) 4) .whole
+    (.seq .list [.int 9, .int 9, .str [97], .int 4]) = ([1, 2, 9, 9, 5, 6, 7], some .typeError) := by decide
+example : setAt true [1, 2, 3, 4, 5, 6, 7] 2 (.arr .intArray (.int .i8) 4) (.slice (some 3) none (some (-2)))
+    (.seq .list [.int 9, .int 8]) = ([1, 2, 3, 8, 5, 9, 7], none) := by decide
+
 /-! ### non-vacuity of the soundness theorems -/
 
 /-- an extended slice with a negative step on an `int8[3]`: hypotheses satisfiable, conclusion about a real store -/
